@@ -9,9 +9,12 @@
        ProtocolBase::write_choke / write_piece          -> fill
      PeerConnection<>::event_write state machine IDLE/MSG/WRITE_PIECE, load_up_chunk, up_chunk
        (offset/length advanced by the bytes the socket accepted)  -> ew
-   One op = one library-level event; WriteReady k = one event_write call during which the socket
-   accepts at most k bytes and then reports EAGAIN.
-   Not modelled: RC4 (m_encrypt_buffer; plain connections only), throttle quota (unthrottled:
+   One op = one library-level event; WriteReady k = the socket accepts k more bytes and then reports
+   EAGAIN: event_write is called (EPOLLOUT is level-triggered) until the socket blocks or the writer
+   has nothing to write; [ew] is the concatenation of those calls.
+   RC4 connections: up_chunk_encrypt / EncryptBuffer position-end arithmetic (enc_refill), the
+   keystream is the Section variable ks.
+   Not modelled: throttle quota (unthrottled:
    node_quota = INT32_MAX >= any accepted length), keep-alives / HAVE / INTERESTED / extension
    messages sharing the write buffer (the harness filters them out of the compared stream; the
    write buffer is assumed empty whenever the writer is IDLE), storage errors in load_up_chunk.
@@ -57,16 +60,19 @@ Record st := mkSt {
   send_choked : bool;     (* m_send_choked *)
   queue : list piece;     (* m_peer_chunks.upload_queue(), front first *)
   ws : wstate;            (* m_up->get_state() *)
-  obuf : list N;          (* unsent part of m_up->buffer() *)
+  obuf : list N;          (* unsent part of m_up->buffer() (already encrypted on RC4 connections) *)
   last_piece : bool;      (* m_up->last_command() == PIECE *)
   cur : piece;            (* m_up_piece (offset/length move as bytes are written) *)
   closed : bool;          (* connection erased after communication_error *)
   out : list (list N);    (* byte chunks accepted by the socket, newest first *)
-  msgs : list msg         (* ghost: messages placed in the write buffer, newest first *)
+  msgs : list msg;        (* ghost: messages placed in the write buffer, newest first *)
+  ebuf : list N;          (* m_encrypt_buffer: position()..end(), encrypted and not yet sent *)
+  eb_end : N;             (* m_encrypt_buffer->size_end() *)
+  kpos : N                (* bytes the connection's RC4 encryptor has produced so far *)
 }.
 
 Definition init : st :=
-  mkSt true false [] Idle [] false (mkPiece 4294967295 0 0) false [] [].
+  mkSt true false [] Idle [] false (mkPiece 4294967295 0 0) false [] [] [] 0 0.
 
 Inductive op :=
 | RecvRequest (p : piece)
@@ -92,9 +98,14 @@ Fixpoint remove_first (p : piece) (q : list piece) : list piece :=
   | x :: q' => if piece_eqb x p then q' else x :: remove_first p q'
   end.
 
+Definition len (l : list N) : N := N.of_nat (length l).
+
 Section Conn.
   Variable L : layout.
   Variable content : N -> N -> N.   (* piece index, offset in piece -> byte of the verified content *)
+  Variable enc : bool.              (* RC4 stream (EncryptionInfo::is_encrypted) *)
+  Variable ks : N -> N.             (* keystream byte at position n of the connection's encryptor,
+                                       counted from the first byte this connection encrypts *)
 
   Fixpoint slice_fuel (f : nat) (i off : N) : list N :=
     match f with
@@ -103,6 +114,14 @@ Section Conn.
     end.
   Definition slice (i off n : N) : list N := slice_fuel (N.to_nat n) i off.
 
+  (* RC4::crypt over a buffer: byte j of the buffer is combined with keystream position pos+j *)
+  Fixpoint xor_from (pos : N) (l : list N) : list N :=
+    match l with
+    | [] => []
+    | x :: t => N.lxor x (ks pos) :: xor_from (pos + 1) t
+    end.
+  Definition crypt (pos : N) (l : list N) : list N := if enc then xor_from pos l else l.
+
   (* read_message REQUEST case + read_request_piece *)
   Definition recv_request (s : st) (p : piece) : st :=
     if closed s then s else
@@ -110,55 +129,96 @@ Section Conn.
        || (Params.c05_request_len_limit <? p_len p) then s
     else if existsb (piece_eqb p) (queue s) then s
     else mkSt (choked s) (send_choked s) (queue s ++ [p]) (ws s) (obuf s) (last_piece s) (cur s)
-              (closed s) (out s) (msgs s).
+              (closed s) (out s) (msgs s) (ebuf s) (eb_end s) (kpos s).
 
   (* read_cancel_piece *)
   Definition recv_cancel (s : st) (p : piece) : st :=
     if closed s then s else
     mkSt (choked s) (send_choked s) (remove_first p (queue s)) (ws s) (obuf s) (last_piece s) (cur s)
-         (closed s) (out s) (msgs s).
+         (closed s) (out s) (msgs s) (ebuf s) (eb_end s) (kpos s).
 
   (* receive_upload_choke; the choke_queue never calls it with the state it already has *)
   Definition decide (s : st) (c : bool) : st :=
     if closed s then s else
     if Bool.eqb c (choked s) then s
-    else mkSt c true (queue s) (ws s) (obuf s) (last_piece s) (cur s) (closed s) (out s) (msgs s).
+    else mkSt c true (queue s) (ws s) (obuf s) (last_piece s) (cur s) (closed s) (out s) (msgs s)
+              (ebuf s) (eb_end s) (kpos s).
 
-  (* fill_write_buffer, writer IDLE and buffer empty. *)
+  (* fill_write_buffer, writer IDLE and buffer empty. What is appended to the buffer is passed
+     through m_encryption.encrypt(old_end, ...) at the end of fill_write_buffer. *)
   Definition fill (s : st) : st :=
     (* choke branch *)
     let s1 :=
       if send_choked s then
         mkSt (choked s) false (if choked s then [] else queue s) (ws s) (enc_choke (choked s)) false
-             (cur s) (closed s) (out s) (MChoke (choked s) :: msgs s)
+             (cur s) (closed s) (out s) (MChoke (choked s) :: msgs s) (ebuf s) (eb_end s) (kpos s)
       else s in
     (* piece branch: !choked && !queue.empty() && can_write_piece() -> write_prepare_piece *)
-    if choked s1 then s1 else
-    match queue s1 with
-    | [] => s1
-    | p :: q' =>
-        if is_valid_piece L p && l_completed L (p_index p) then
-          mkSt (choked s1) (send_choked s1) q' (ws s1) (obuf s1 ++ enc_piece_hdr p) true p
-               (closed s1) (out s1) (MPiece p :: msgs s1)
-        else
-          (* communication_error: the connection is erased, nothing buffered is sent *)
-          mkSt (choked s1) (send_choked s1) q' Idle [] (last_piece s) p true (out s) (msgs s)
-    end.
+    let s2 :=
+      if choked s1 then s1 else
+      match queue s1 with
+      | [] => s1
+      | p :: q' =>
+          if is_valid_piece L p && l_completed L (p_index p) then
+            mkSt (choked s1) (send_choked s1) q' (ws s1) (obuf s1 ++ enc_piece_hdr p) true p
+                 (closed s1) (out s1) (MPiece p :: msgs s1) (ebuf s1) (eb_end s1) (kpos s1)
+          else
+            (* communication_error: the connection is erased, nothing buffered is sent *)
+            mkSt (choked s1) (send_choked s1) q' Idle [] (last_piece s) p true (out s) (msgs s)
+                 (ebuf s) (eb_end s) (kpos s)
+      end in
+    (* encrypt what this call appended (the buffer was empty) *)
+    mkSt (choked s2) (send_choked s2) (queue s2) (ws s2) (crypt (kpos s2) (obuf s2)) (last_piece s2) (cur s2)
+         (closed s2) (out s2) (msgs s2) (ebuf s2) (eb_end s2) (kpos s2 + len (obuf s2)).
 
   Definition set_ws (s : st) (w : wstate) : st :=
-    mkSt (choked s) (send_choked s) (queue s) w (obuf s) (last_piece s) (cur s) (closed s) (out s) (msgs s).
+    mkSt (choked s) (send_choked s) (queue s) w (obuf s) (last_piece s) (cur s) (closed s) (out s) (msgs s)
+         (ebuf s) (eb_end s) (kpos s).
 
   (* the socket accepts the first n bytes of the write buffer *)
   Definition write_buf (s : st) (n : N) : st :=
     mkSt (choked s) (send_choked s) (queue s) (ws s) (skipn (N.to_nat n) (obuf s)) (last_piece s) (cur s)
-         (closed s) (firstn (N.to_nat n) (obuf s) :: out s) (msgs s).
+         (closed s) (firstn (N.to_nat n) (obuf s) :: out s) (msgs s) (ebuf s) (eb_end s) (kpos s).
 
-  (* up_chunk: n payload bytes written; m_up_piece offset/length adjusted *)
+  (* up_chunk, plain stream: n payload bytes written; m_up_piece offset/length adjusted
+     (kpos moves too: ghost on plain connections, where crypt is the identity) *)
   Definition write_payload (s : st) (n : N) : st :=
     let c := cur s in
     mkSt (choked s) (send_choked s) (queue s) (ws s) (obuf s) (last_piece s)
          (mkPiece (p_index c) (p_off c + n) (p_len c - n))
-         (closed s) (slice (p_index c) (p_off c) n :: out s) (msgs s).
+         (closed s) (slice (p_index c) (p_off c) n :: out s) (msgs s) (ebuf s) (eb_end s) (kpos s + n).
+
+  (* up_chunk_encrypt(quota = m_up_piece.length()): Chunk::to_buffer of the next not yet encrypted
+     bytes of the block into the EncryptBuffer (16384 bytes), RC4 over exactly those bytes *)
+  Definition eb_size : N := 16384.
+  Definition enc_refill (s : st) : st :=
+    let c := cur s in
+    let r := len (ebuf s) in
+    if p_len c <=? r then s
+    else
+      let e0 := if r =? 0 then 0 else eb_end s in                (* remaining()==0: reset() *)
+      let n := if r =? 0 then N.min (p_len c) eb_size            (* min(quota, reserved()) *)
+               else N.min (p_len c - r) (eb_size - e0) in        (* min(quota - remaining, reserved_left) *)
+      mkSt (choked s) (send_choked s) (queue s) (ws s) (obuf s) (last_piece s) c (closed s) (out s) (msgs s)
+           (ebuf s ++ crypt (kpos s) (slice (p_index c) (p_off c + r) n)) (e0 + n) (kpos s + n).
+
+  (* the socket accepts the first n bytes of the encrypt buffer *)
+  Definition write_ebuf (s : st) (n : N) : st :=
+    let c := cur s in
+    mkSt (choked s) (send_choked s) (queue s) (ws s) (obuf s) (last_piece s)
+         (mkPiece (p_index c) (p_off c + n) (p_len c - n))
+         (closed s) (firstn (N.to_nat n) (ebuf s) :: out s) (msgs s)
+         (skipn (N.to_nat n) (ebuf s)) (eb_end s) (kpos s).
+
+  (* one up_chunk call with socket budget k: (state, bytes written) *)
+  Definition up_chunk (s : st) (k : N) : st * N :=
+    if enc then
+      let s0 := enc_refill s in
+      let n := N.min k (N.min (p_len (cur s0)) (len (ebuf s0))) in
+      (if n =? 0 then s0 else write_ebuf s0 n, n)
+    else
+      let n := N.min k (p_len (cur s)) in
+      (if n =? 0 then s else write_payload s n, n).
 
   (* PeerConnection<>::event_write: each recursive call is one iteration of its do-while loop *)
   Fixpoint ew (fuel : nat) (k : N) (s : st) : st :=
@@ -184,15 +244,16 @@ Section Conn.
                     else ew f (k - n) (set_ws s1 Idle)
             end
       | WPiece =>
-          let n := N.min k (p_len (cur s)) in
-          if n =? 0 then s                (* EAGAIN (a valid piece never has length 0 here) *)
-          else
-            let s1 := write_payload s n in
-            if p_len (cur s1) =? 0 then ew f (k - n) (set_ws s1 Idle) else s1
+          let (s1, n) := up_chunk s k in
+          if n =? 0 then s1               (* EAGAIN (a valid piece never has length 0 here) *)
+          else if p_len (cur s1) =? 0 then ew f (k - n) (set_ws s1 Idle)
+          else ew f (k - n) s1            (* up_chunk returned false: event_write returns; EPOLLOUT is
+                                             level-triggered, so it is called again at once *)
       end
     end.
 
-  Definition ew_fuel (s : st) : nat := 3 * length (queue s) + 8.
+  (* per block: IDLE, MSG, and at most 131072/16384 + 2 WRITE_PIECE rounds *)
+  Definition ew_fuel (s : st) : nat := 13 * length (queue s) + 30.
 
   Definition step (s : st) (o : op) : st :=
     match o with
@@ -204,7 +265,7 @@ Section Conn.
 
   Definition run (ops : list op) : st := fold_left step ops init.
 
-  (* what the peer must see for a message log (oldest first) *)
+  (* what the peer must see (before the stream cipher) for a message log (oldest first) *)
   Definition enc_msg (m : msg) : list N :=
     match m with
     | MChoke c => enc_choke c
@@ -212,11 +273,11 @@ Section Conn.
     end.
   Definition wire (ms : list msg) : list N := concat (map enc_msg (rev ms)).
 
-  (* payload that the writer still owes for the message it is in the middle of *)
+  (* plaintext payload the writer still owes and has not yet passed through the cipher *)
   Definition pend_payload (s : st) : list N :=
     match ws s with
     | Idle => []
     | Msg => if last_piece s then slice (p_index (cur s)) (p_off (cur s)) (p_len (cur s)) else []
-    | WPiece => slice (p_index (cur s)) (p_off (cur s)) (p_len (cur s))
+    | WPiece => slice (p_index (cur s)) (p_off (cur s) + len (ebuf s)) (p_len (cur s) - len (ebuf s))
     end.
 End Conn.
